@@ -186,6 +186,19 @@ func PopulateStructFields(m map[string]any, data any) {
 		rv = rv.Elem()
 	}
 
+	// Root data that is a string-keyed map (map[string]int, ...) is resolved by
+	// Lookup key by key; the expression environment sees the same keys.
+	if rv.Kind() == reflect.Map && rv.Type().Key().Kind() == reflect.String {
+		iter := rv.MapRange()
+		for iter.Next() {
+			k := iter.Key().String()
+			if _, bound := m[k]; !bound {
+				m[k] = iter.Value().Interface()
+			}
+		}
+		return
+	}
+
 	if rv.Kind() != reflect.Struct {
 		return
 	}
@@ -220,6 +233,13 @@ func PopulateStructFields(m map[string]any, data any) {
 		// unless a scope already binds the name: scopes shadow root data.
 		if _, bound := m[tagName]; !bound {
 			m[tagName] = fieldValue
+		}
+		// The Go field name resolves as well: Lookup finds a field by name
+		// before it tries json tags, and expressions must see the same names.
+		if f.Name != tagName {
+			if _, bound := m[f.Name]; !bound {
+				m[f.Name] = fieldValue
+			}
 		}
 	}
 }
